@@ -514,6 +514,39 @@ def run(chk):
     chk.ob("C16.R1c:hole-labels", "holes are equal only if their labels are", hole_labels_compared)
 
     # ---- R2 ----------------------------------------------------------------------------------------------------
+    def hole_formatter_used():
+        """`for each hole, the first-wins property value (through the hole's formatter if it has one) ... to any writer`: every writer's
+        write_hole_fmt - the trait's provided one and each override, the terminal's included - renders the value *through the formatter it is
+        given*: on every path the formatter parameter is the receiver of Formatter::apply / Formatter::fmt with the value parameter as its
+        argument, or all four parameters are handed on to another writer's write_hole_fmt in the same positions."""
+        ev = []
+        n = 0
+        for k, b in sorted(P.bodies.items()):
+            if not k.endswith("::write_hole_fmt") or b.is_closure or (b.trait or "emit_core::template::Write") != "emit_core::template::Write" and "template::Write" not in k:
+                continue
+            if b.argc != 4:
+                continue
+            n += 1
+            use = []
+            for c in b.calls(normal_only=True):
+                pth = c.callee.get("path") or c.callee.get("full") or ""
+                nm = c.callee.get("name")
+                if pth.startswith("emit_core::template::Formatter::") and nm in ("apply", "fmt") and len(c.args) >= 2:
+                    if mir.o_is_param(b.origin(c.args[0]), idx=4) and mir.o_is_param(b.origin(c.args[1], through_calls=("by_ref",)), idx=3):
+                        use.append(c)
+                elif nm == "write_hole_fmt" and len(c.args) == 4:
+                    if all(mir.o_is_param(b.origin(c.args[i], through_calls=("deref_mut", "by_ref")), idx=i + 1) for i in (1, 2, 3)):
+                        use.append(c)
+            if not use:
+                return False, ("%s does not render the value through the hole's formatter (no Formatter::apply / Formatter::fmt of its `formatter` parameter on its "
+                               "`value` parameter): a hole written with format flags (`{x:.3}`, `{x:?}`) renders differently through this writer" % k), [], b.span
+            if not b.must_pass({c.bb for c in use}):
+                return False, "%s can return without having rendered the value through the hole's formatter" % k, [], b.span
+            ev.append(use[0].loc)
+        chk.floor("writers' write_hole_fmt bodies (provided + overrides)", n, 3)
+        return True, "", ev
+    chk.ob("C16.R2:hole-formatter-used", "every writer renders a formatted hole through the formatter it is given", hole_formatter_used)
+
     def part_write():
         b = P.body(T + "Part::<'a>::write")
         calls = {n: [c for c in b.calls(normal_only=True) if c.callee.get("trait") == WRITE and c.callee.get("name") == n]
